@@ -112,3 +112,6 @@ Proof.
   exists k. destruct (own_lock (get_ks st k) s) as [l|] eqn:Eo; [|discriminate].
   exists (ECommitTsExpired (l_min_commit l)). split; [exact Hin|]. unfold commit_key. rewrite Eo, Hk. reflexivity.
 Qed.
+
+Lemma lock_fields_monotone_seq cmds c k : lock_mono_ok (run cmds) (fst (step (run cmds) c)) c k = true.
+Proof. apply lock_fields_monotone. apply (run_sorted cmds). Qed.
